@@ -1,6 +1,7 @@
 import Pyunicorn.Lemmas.Random
 /-! Helper lemmas for C17, cross-link kernels (core Lean only). -/
 namespace Pyunicorn.Random
+open Pyunicorn.Generated.StructC17
 
 
 theorem rsum_single (a : Nat) (x : Int) (n : Nat) :
@@ -60,7 +61,7 @@ structure CrossInv (m n : Nat) (C : Adj) (links : List (Nat × Nat)) : Prop wher
 theorem crossStep_cases (st st' : CrossSt) (d : Nat × Nat) (h : crossStep st d = some st') :
     st' = st ∨ ∃ a b c e, ∃ (hp : d.1 < st.links.length) (hq : d.2 < st.links.length),
       st.links[d.1] = (a, b) ∧ st.links[d.2] = (c, e) ∧ st.C a e = false ∧ st.C c b = false ∧
-      st' = { C := (((st.C.set a b false).set c e false).set a e true).set c b true
+      st' = { C := swapped st.C a b c e
               links := (st.links.set d.1 (a, e)).set d.2 (c, b)
               done := st.done + 1 } := by
   unfold crossStep at h
@@ -80,19 +81,19 @@ theorem crossStep_cases (st st' : CrossSt) (d : Nat × Nat) (h : crossStep st d 
   · simp at h
 
 theorem swap_apply (C : Adj) (a b c e x y : Nat) (hac : a ≠ c) (_hbe : b ≠ e) :
-    ((((C.set a b false).set c e false).set a e true).set c b true) x y =
+    (swapped C a b c e) x y =
       if (x = a ∧ y = e) ∨ (x = c ∧ y = b) then true
       else if (x = a ∧ y = b) ∨ (x = c ∧ y = e) then false else C x y := by
-  unfold Adj.set
+  simp only [swapped, applyWrites, rewWrites, List.foldl_cons, List.foldl_nil, Adj.set]
   grind
 
 theorem crossInv_swap (m n : Nat) (C : Adj) (L : List (Nat × Nat)) (p q a b c e : Nat)
     (hp : p < L.length) (hq : q < L.length) (e1 : L[p] = (a, b)) (e2 : L[q] = (c, e))
     (h1 : C a e = false) (h2 : C c b = false) (inv : CrossInv m n C L) :
-    CrossInv m n ((((C.set a b false).set c e false).set a e true).set c b true)
+    CrossInv m n (swapped C a b c e)
       ((L.set p (a, e)).set q (c, b)) ∧
-    (∀ r, deg ((((C.set a b false).set c e false).set a e true).set c b true) n r = deg C n r) ∧
-    (∀ r, colDeg ((((C.set a b false).set c e false).set a e true).set c b true) m r = colDeg C m r) := by
+    (∀ r, deg (swapped C a b c e) n r = deg C n r) ∧
+    (∀ r, colDeg (swapped C a b c e) m r = colDeg C m r) := by
   obtain ⟨inb, ones, inj, complete⟩ := inv
   have hab : C a b = true := by have := ones p hp; rw [e1] at this; exact this
   have hce : C c e = true := by have := ones q hq; rw [e2] at this; exact this
@@ -133,10 +134,12 @@ theorem crossInv_swap (m n : Nat) (C : Adj) (L : List (Nat × Nat)) (p q a b c e
         rw [getElem_set2]
         grind
   · intro r
+    simp only [swapped, applyWrites, rewWrites, List.foldl_cons, List.foldl_nil]
     simp only [deg_set]
     simp [Adj.set, *]
     grind [b2i]
   · intro r
+    simp only [swapped, applyWrites, rewWrites, List.foldl_cons, List.foldl_nil]
     simp only [colDeg_set]
     simp [Adj.set, *]
     grind [b2i]
@@ -181,18 +184,19 @@ theorem mem_overwriteWrites (C : Adj) (nodes1 nodes2 : List Nat) (w : Nat × Nat
       ∃ i j n1 n2, nodes1[i]? = some n1 ∧ nodes2[j]? = some n2 ∧
         (w = (n1, n2, C i j) ∨ w = (n2, n1, C i j)) := by
   simp only [overwriteWrites, List.mem_flatMap, List.mem_range, (overwrite_reads_eq _ _).1,
-    (overwrite_reads_eq _ _).2, owWrites_eq]
+    (overwrite_reads_eq _ _).2]
   constructor
   · rintro ⟨i, hi, j, hj, h⟩
     rw [List.getElem?_eq_getElem hi, List.getElem?_eq_getElem hj] at h
-    simp only [List.mem_cons, List.not_mem_nil, or_false] at h
+    simp only [mem_owWrites] at h
     exact ⟨i, j, _, _, List.getElem?_eq_getElem hi, List.getElem?_eq_getElem hj, h⟩
   · rintro ⟨i, j, n1, n2, h1, h2, h⟩
     obtain ⟨hi, rfl⟩ := List.getElem?_eq_some_iff.1 h1
     obtain ⟨hj, rfl⟩ := List.getElem?_eq_some_iff.1 h2
     refine ⟨i, hi, j, hj, ?_⟩
     rw [List.getElem?_eq_getElem hi, List.getElem?_eq_getElem hj]
-    simpa using h
+    simp only [mem_owWrites]
+    exact h
 
 
 /-- no duplicates, in index form -/
